@@ -145,6 +145,8 @@ def normalise(node, src=None, problems=None):
         return (k, [normalise(x, src, problems) for x in node[1]])
     if k == "range":
         return ("range",)
+    if k == "sym":
+        return ("sym", re.sub(r"\?\d+", "?", node[1]))      # generated symbols carry a counter
     return node
 
 
